@@ -1088,9 +1088,29 @@ def object_tables(c):
     return con, cur
 
 
+def object_crash_class(c):
+    """The process died while running an `object` history.  One class of such crashes is a known defect of the unchanged tree
+    (KNOWN_FINDINGS: the engine is not laid out again for the new number of individuals): whole individuals left the table, a
+    later simulate handed the shorter table / map to the engine, and a likelihood was then computed with several threads."""
+    seq = c.get('seq') or []
+    kept = {i for i, rm in zip(c.get('ids', []), c.get('rm', [])) if not rm}
+    fewer = kept != set(c.get('ids', []))
+    change = [k for k, a in enumerate(seq) if a in ('remove', 'droprows')]
+    if not change or not fewer or int(c.get('threads', 1) or 1) <= 1:
+        return None
+    sims = [k for k, a in enumerate(seq) if a == 'sim' and k > change[0]]
+    if sims and any(a in ('ll', 'lls', 'lld', 'llds') for a in seq[sims[0] + 1:]):
+        return 'object-crash-likelihood-after-simulate-fewer-individuals'
+    return None
+
+
 def object_oracle(c, r):
     bad = []
     if 'runner' in r:
+        known = object_crash_class(c) if r['runner'].get('exc') == 'subprocess died' else None
+        if known:
+            return [(known, 'the process died (segmentation fault in the engine) in a history where whole individuals were removed, '
+                     'simulate was called and a likelihood was then computed with several threads', None, r['runner'])]
         return [('runner-exception', f"{r['runner']}", None, r['runner'])]
     if not r['panel']['ok']:
         return [('refused-contiguous', 'Database.panel refused a contiguous column', None, r['panel'])]
